@@ -182,6 +182,19 @@ func holdsDirectArray(typ *runtime.Type) bool {
 				return false
 			}
 			typ = member
+		case reflect.Ptr:
+			// a member that is a pointer to a pointer, or a pointer to another pointer-shaped struct: the
+			// head opcodes of a struct that sits in the interface word follow such chains one level short
+			elem := typ.Elem()
+			if elem.Kind() != reflect.Ptr {
+				return elem.Kind() == reflect.Struct && !runtime.IfaceIndir(elem)
+			}
+			for elem.Kind() == reflect.Ptr {
+				elem = elem.Elem()
+			}
+			// ( a chain of pointers that ends in a pointer-shaped struct is left as it is: the opcodes of
+			// a struct in memory do not follow that chain either )
+			return !(elem.Kind() == reflect.Struct && !runtime.IfaceIndir(elem))
 		default:
 			return false
 		}
